@@ -91,6 +91,30 @@ Definition mn_epi (l : list (Q * option (Q * Q))) : Q :=
 (* pinned tree: np.std(loc, axis=0)**2 - the weights are not used *)
 Definition mn_epi_today (l : list (Q * option (Q * Q))) : Q := mn_epi (unweight l).
 
+(* loc and scale of a member given with DIFFERENT masks (only loc, or only scale, masked; one of them a plain ndarray):
+   a member is (weight, (loc or masked, scale or masked)).
+   Repaired (F80): a normal member without its loc or without its scale is no prediction - the member is masked where
+   either is, and every statistic is the one above on [mn_union l].
+   Pinned tree: each statistic uses whatever numpy.ma leaves unmasked in the arrays it happens to read:
+   loc and epistemic over the loc masks, aleatoric over the scale masks, total over the union. *)
+Definition both (m : option Q * option Q) : option (Q * Q) :=
+  match m with (Some a, Some b) => Some (a, b) | _ => None end.
+Definition mn_union (l : list (Q * (option Q * option Q))) : list (Q * option (Q * Q)) :=
+  map (fun m => (fst m, both (snd m))) l.
+Definition mn_locs (l : list (Q * (option Q * option Q))) : list (Q * option Q) := map (fun m => (fst m, fst (snd m))) l.
+Definition mn_scales (l : list (Q * (option Q * option Q))) : list (Q * option Q) := map (fun m => (fst m, snd (snd m))) l.
+Definition mn2_loc_today (l : list (Q * (option Q * option Q))) : Q := mean (mn_locs l).
+Definition mn2_ale_today (l : list (Q * (option Q * option Q))) : Q := wavg (fun s => s * s) (mn_scales l).
+Definition mn2_epi_today (l : list (Q * (option Q * option Q))) : Q :=
+  let m := mn2_loc_today l in wavg (fun x => (x - m) * (x - m)) (mn_locs l).
+Definition mn2_total_today (l : list (Q * (option Q * option Q))) : Q :=
+  let m := mn2_loc_today l in wavg (fun a => snd a * snd a + (fst a - m) * (fst a - m)) (mn_union l).
+
+(* pinned tree, integer-typed (int64) scale arrays (F81): scale**2 is computed in int64 and wraps around *)
+Definition wrap64 (z : Z) : Z := ((z + 2 ^ 63) mod 2 ^ 64 - 2 ^ 63)%Z.
+Definition mn_ale_int64 (l : list (Q * option (Q * Q))) : Q :=
+  wavg (fun a => inject_Z (wrap64 (Qnum (snd a) * Qnum (snd a)))) l.
+
 (* ---------- MixedCategoricalAggregator : payload = row of K class probabilities ---------- *)
 Definition cat_loc (K : nat) (l : list (Q * option (list Q))) : list Q :=
   map (fun k => wavg (fun p => nth k p 0) l) (seq 0 K).
